@@ -291,9 +291,12 @@ FutSide(S) == {o \in DOMAIN pend : pend[o].fut /\ pend[o].started /\ pend[o].op 
 \* slots only every K receives or when it goes to wait, so a waiting sender does
 \* not see the space freed by the receives since then.  With the deviation enabled
 \* such a sender is excused at quiescence.
-Hoarded(o) == /\ Dev("F12") /\ IsSend(o) /\ pend[o].lin = "" /\ Bounded /\ aux.hoard > 0
+\* The same finding for async senders ("metered drip"): one release wakes exactly one pending send future; the
+\* others sleep next to free slots until the consumer's next call, whatever has been published.
+Hoarded(o) == /\ Dev("F12") /\ IsSend(o) /\ pend[o].lin = "" /\ Bounded
               /\ ~SenderRejected(o)
-              /\ Len(buf) + aux.hoard >= cfg.cap
+              /\ \/ aux.hoard > 0 /\ Len(buf) + aux.hoard >= cfg.cap
+                 \/ pend[o].fut
 EnabledQ(o) == Enabled(o) /\ ~Hoarded(o)
 Ready(o) == pend[o].lin # "" \/ EnabledQ(o)
 \* C06: "an executor that polls only woken tasks never stalls while progress is possible":
